@@ -18,6 +18,10 @@ DROPPED_CALLS = ('logger.debug', 'logger.info', 'logger.warning', 'logger.error'
                  'log_timeout_tree')
 
 
+import itertools as _it
+_EPOCH = _it.count(1)
+
+
 class CallMixin(ExprMixin):
 
     # ------------------------------------------------------------------ dispatch
@@ -470,7 +474,7 @@ class CallMixin(ExprMixin):
         for f, tgt in C.modifies:
             mods.setdefault(f, []).append(tgt)
         now0 = self.entry['now']
-        for f in sorted(self.st.heap):
+        for f in sorted(k for k in self.st.heap if not k.startswith('$')):
             if f.startswith('$') or (only_fields is not None and f not in only_fields):
                 continue
             a0 = self.frame_baseline('heap', f)
@@ -501,6 +505,14 @@ class CallMixin(ExprMixin):
         for g in ghosts:
             if g in self.st.ghost:
                 self.frame_base['ghost'][g] = self.st.ghost[g]
+
+    def new_epoch(self, keep=()):
+        """Everything not yet materialised is havocked too: fields first read from now on get fresh arrays, except the
+        `keep` fields (never written by other tasks), which are pinned to their epoch-0 arrays."""
+        for f in keep:
+            if f in self.spec.fields:
+                self.heap_arr(f)        # materialise in the current epoch chain = same array as before
+        self.st.heap['$epoch'] = next(_EPOCH)
 
     def grow_alloc(self):
         new = z3.Int(fresh_name('now'))
@@ -658,10 +670,12 @@ class CallMixin(ExprMixin):
             for cl in I.inv:
                 self.oblige('inv@await#%d' % k, cl.label, self.spec_bool(cl.expr, env), cl.tags)
             pre = self.st.snapshot()
-            fields = [f for f in (list(self.st.heap) if '*' in I.havoc else I.havoc) if f not in I.keep]
+            fields = [f for f in (list(self.st.heap) if '*' in I.havoc else I.havoc) if f not in I.keep and not f.startswith('$')]
             self.check_frame('await#%d' % k, None, only_fields=set(fields), only_ghosts=set(I.havoc_ghost))
             for f in fields:
                 self.havoc_field(f)
+            if '*' in I.havoc:
+                self.new_epoch(I.keep)
             self.grow_alloc()   # allocation only grows
             for g in I.havoc_ghost:
                 self.havoc_ghost(g)
